@@ -119,7 +119,7 @@ def wake(ctx):
         if not raises:
             ctx.broken("no store of true to TriggerVariable::%s (anchor vanished)" % flag)
         for f, top, op in raises:
-            ok, detail = notify_follows(f, f.pos_of(op["st"]), cv, [flag], CLS)
+            ok, detail = notify_follows(f, f.pos_of(op["st"]), cv, [flag], CLS, fb=ctx.fb)
             ctx.ob(rid, ok, f.loc(op["st"]), "%s = true is followed by %s.notify_all()" % (flag, cv),
                    "" if ok else detail, fn=top.label, inst=f.qname)
 
